@@ -62,7 +62,10 @@ def run(ctx):
     # routines they link
     from . import termination
     r5 = termination.rule_for(prog, "R20.5", "unber, enber and the BER routines they use", set(prog.funcs.keys()), 30)
-    return [r1, r2, r20_3(prog), r20_4(prog), r5]
+    # R20.6: the tools' own printf-like calls (osprintf, osprintfError, fprintf, ...) get the arguments their formats consume
+    from . import c10
+    r6 = c10.r10_14(prog, rid="R20.6", floor=60, what="unber and enber")
+    return [r1, r2, r20_3(prog), r20_4(prog), r5, r6]
 
 
 def r20_4(prog):
